@@ -198,7 +198,8 @@ CE = 'contracts.cer_encoder'
 import contracts.constraint as _cn
 CONSTRAINTS = [(CN, c.id) for c in _cn.CONTRACTS]
 CER = [(CE, 'cer.encoder::GeneralizedTimeEncoder.encodeValue[no-fraction]'),
-       (CE, 'cer.encoder::UTCTimeEncoder.encodeValue[no-fraction]'), (CE, 'cer.encoder::SetEncoder._tagSortKey')]
+       (CE, 'cer.encoder::UTCTimeEncoder.encodeValue[no-fraction]'), (CE, 'cer.encoder::SetEncoder._tagSortKey'),
+       (CE, 'cer.encoder::SetEncoder._memberSortKey')]
 PROPS['C03']['contracts'] = PROPS['C03']['contracts'] + CER + [(CE, 'cer.encoder::SequenceOfEncoder.encodeValue')]
 PROPS['C02']['contracts'] = PROPS['C02']['contracts'] + [(CE, 'cer.encoder::SequenceOfEncoder.encodeValue')]
 
